@@ -23,8 +23,8 @@ StateOf(ln) == [A |-> ln.post.A, B |-> ln.post.B, blocks |-> ln.blocks]
 FirstAlloc(evs) == LET idx == {j \in 1..Len(evs) : evs[j][1] = 4} IN
                    IF idx = {} THEN 0 ELSE evs[CHOOSE j \in idx : \A j2 \in idx : j <= j2][2] - 10
 
-Applicable(ln) == /\ ln.t = "op" /\ ~Fatal(ln) /\ ln.op \in Modelled /\ Cfg.tracked /\ ~Cfg.vector /\ ~ln.evtrunc
-                  /\ Cfg.construct \in {TRUE, FALSE}
+Applicable(ln) == /\ ln.t = "op" /\ ~Fatal(ln) /\ ln.op \in Modelled /\ RangeKindOK(ln)
+                  /\ Cfg.tracked /\ ~Cfg.vector /\ ~ln.evtrunc
 
 Diff(p, a) ==
   (IF p.out # a.out THEN {"outcome"} ELSE {})
@@ -39,7 +39,8 @@ Step ==
   /\ l <= Len(TraceLog)
   /\ LET ln == TraceLog[l] IN
      CASE ln.t = "op" ->
-            /\ IF Applicable(ln) /\ st[ln.c].p = (ln.op \notin {"ctor_def", "ctor_n", "ctor_nv"})
+            /\ IF Applicable(ln) /\ st[ln.c].p = (ln.op \notin {"ctor_def", "ctor_n", "ctor_nv", "ctor_rng", "ctor_il", "ctor_copy", "ctor_move"})
+                  /\ (ln.s = "-" \/ st[ln.s].p)
                THEN LET fa == FirstAlloc(ln.evs)
                         ln2 == IF fa > 0 THEN [ln EXCEPT !.id = ln.id] @@ [newid |-> fa] ELSE ln
                         p == Exec(Cfg, st, ln2)
